@@ -44,7 +44,9 @@ type c10Case struct {
 }
 
 func c10Snapshot(e *c08Env) (hosts, macs, leases, routers, dnsTab string) {
-	ne := func(n packet.NameEntry) string { return fmt.Sprintf("%s|%s|%s|%s|%s", n.Type, n.Name, n.Model, n.Manufacturer, n.OS) }
+	ne := func(n packet.NameEntry) string {
+		return fmt.Sprintf("%s|%s|%s|%s|%s", n.Type, n.Name, n.Model, n.Manufacturer, n.OS)
+	}
 	var hs []string
 	for ip, h := range e.s.HostTable.Table {
 		hs = append(hs, fmt.Sprintf("%v mac=%x/%x online=%v stage=%v manuf=%q dhcp=%s mdns=%s ssdp=%s llmnr=%s nbns=%s", ip, []byte(h.Addr.MAC), []byte(h.MACEntry.MAC), h.Online, h.HuntStage, h.Manufacturer,
@@ -68,7 +70,10 @@ func c10Snapshot(e *c08Env) (hosts, macs, leases, routers, dnsTab string) {
 	}
 	e.icmp6.Unlock()
 	sort.Strings(rs)
-	var ds []string
+	ds := append([]string{}, e.dns.VerifMDNSCache()...)
+	for i := range ds {
+		ds[i] = "mdns-cache " + ds[i]
+	}
 	for name, ent := range e.dns.DNSTable {
 		var parts []string
 		for k, v := range ent.IP4Records {
@@ -130,7 +135,7 @@ func c10Frames(frames []sentFrame) (sync []string, async []string) {
 }
 
 type c10Transcript struct {
-	steps []string
+	steps    []string
 	async    []string
 	retained bool
 	joined   bool
@@ -185,7 +190,12 @@ func c10Execute(c c10Case, shared bool) (tr c10Transcript, p interface{}, sig, s
 					buf = make([]byte, packet.EthMaxSize)
 				}
 				n := copy(buf, stp.Data)
-				p, sig, st = drv.Catch(func() { result += c10Dispatch(e, buf[:n]) })
+				var late func() string
+				p, sig, st = drv.Catch(func() {
+					var r string
+					r, late = c10Dispatch(e, buf[:n])
+					result += r
+				})
 				if p != nil {
 					return
 				}
@@ -193,6 +203,9 @@ func c10Execute(c c10Case, shared bool) (tr c10Transcript, p interface{}, sig, s
 					for i := range sharedBuf {
 						sharedBuf[i] = c.Poison ^ byte(i*7)
 					}
+				}
+				if late != nil { // what the handler handed to its caller must not have changed with the buffer
+					result += late() + ";"
 				}
 			}
 		case "purge":
@@ -236,12 +249,14 @@ func c10Execute(c c10Case, shared bool) (tr c10Transcript, p interface{}, sig, s
 }
 
 // c10Dispatch is the packet loop body; it returns what the name handlers reported.
-func c10Dispatch(e *c08Env, b []byte) string {
+// late renders what the handler returned to its caller; it is called after the buffer has been overwritten.
+func c10Dispatch(e *c08Env, b []byte) (string, func() string) {
 	frame, perr := e.s.Parse(b)
 	if perr != nil {
-		return "parse-error;"
+		return "parse-error;", nil
 	}
 	out := ""
+	var late func() string
 	switch frame.PayloadID {
 	case packet.PayloadARP:
 		out = fmt.Sprint("arp:", e.arp.ProcessPacket(frame))
@@ -257,11 +272,17 @@ func c10Dispatch(e *c08Env, b []byte) string {
 	case packet.PayloadMDNS, packet.PayloadLLMNR:
 		ip4, ip6, err := e.dns.ProcessMDNS(frame)
 		out = fmt.Sprintf("mdns:%v", err != nil)
-		for _, v := range append(ip4, ip6...) {
-			out += fmt.Sprintf(" [%x %v %q %q]", []byte(v.Addr.MAC), v.Addr.IP, v.NameEntry.Name, v.NameEntry.Model)
+		all := append(append([]packet.IPNameEntry{}, ip4...), ip6...)
+		for _, v := range all {
 			if frame.Host != nil {
 				frame.Host.UpdateMDNSName(v.NameEntry)
 			}
+		}
+		late = func() (s string) {
+			for _, v := range all {
+				s += fmt.Sprintf(" [%x %v %q %q]", []byte(v.Addr.MAC), v.Addr.IP, v.NameEntry.Name, v.NameEntry.Model)
+			}
+			return
 		}
 	case packet.PayloadNBNS:
 		n, err := e.dns.ProcessNBNS(frame.Host, frame.Ether(), frame.Payload())
@@ -278,7 +299,7 @@ func c10Dispatch(e *c08Env, b []byte) string {
 		}
 	}
 	e.s.Notify(frame)
-	return out + ";"
+	return out + ";", late
 }
 
 func c10Run(tb drv.TB, rec *drv.Rec, sub string, c c10Case) {
@@ -384,7 +405,15 @@ func c10GenStep(t *rapid.T, w gen.World) []c10Step {
 		m.Options = append(m.Options, ref.DHCPOpt{Code: 55, Data: []byte{1, 3, 6, 15}})
 		return udp4(68, 67, [4]byte{}, [4]byte{255, 255, 255, 255}, m.Encode(true))
 	}
-	switch rapid.SampledFrom([]string{"host4", "host6", "arp", "dhcp", "dhcp", "ra", "dns", "mdns", "nbns", "ssdp", "purge", "capture", "tick", "junk"}).Draw(t, "step") {
+	// name traffic also arrives from stations the session does not track (no host entry is attached to the frame)
+	nameSrc := ip4
+	switch rapid.IntRange(0, 4).Draw(t, "nameSrc") {
+	case 0:
+		nameSrc = [4]byte{169, 254, 7, byte(1 + cl)}
+	case 1:
+		nameSrc = [4]byte{10, 9, 9, byte(1 + cl)}
+	}
+	switch rapid.SampledFrom([]string{"host4", "host6", "arp", "dhcp", "dhcp", "ra", "dns", "mdns", "mdns", "nbns", "ssdp", "purge", "capture", "tick", "junk"}).Draw(t, "step") {
 	case "host4":
 		return []c10Step{{K: "pkt", Data: udp4(9999, 9999, ip4, [4]byte{192, 168, 0, 11}, []byte("x"))}}
 	case "host6":
@@ -427,19 +456,20 @@ func c10GenStep(t *rapid.T, w gen.World) []c10Step {
 		if len(b) > 1200 {
 			b = b[:1200]
 		}
-		return []c10Step{{K: "pkt", Data: udp4(53, 40000, ip4, w.HostIP.As4(), b)}}
+		return []c10Step{{K: "pkt", Data: udp4(53, 40000, nameSrc, w.HostIP.As4(), b)}}
 	case "mdns":
 		m := gen.DNSMsg(t, gen.DNSOptions{MDNS: true, Response: rapid.Bool().Draw(t, "resp")})
 		b, _, _ := m.Encode(rapid.SampledFrom([]int{0, 2}).Draw(t, "compress"))
 		if len(b) > 1200 {
 			b = b[:1200]
 		}
-		return []c10Step{{K: "pkt", Data: udp4(5353, 5353, ip4, [4]byte{224, 0, 0, 251}, b)}}
+		// delivered once or twice: the second delivery is answered from the handler's cache of the first
+		return []c10Step{{K: "pkt", Times: rapid.IntRange(1, 2).Draw(t, "mdnsTimes"), Data: udp4(5353, 5353, nameSrc, [4]byte{224, 0, 0, 251}, b)}}
 	case "nbns":
 		names := []gen.NBNSName{{Name: rapid.SampledFrom([]string{"DESKTOP-1", "NAS", "PRINTER"}).Draw(t, "nb"), Suffix: 0}, {Name: "WORKGROUP", Suffix: 0, Group: true}}
-		return []c10Step{{K: "pkt", Data: udp4(137, 137, ip4, [4]byte{192, 168, 0, 255}, gen.NBNSNodeStatus(uint16(rapid.Uint16().Draw(t, "id")), "*", names, 2, 46))}}
+		return []c10Step{{K: "pkt", Data: udp4(137, 137, nameSrc, [4]byte{192, 168, 0, 255}, gen.NBNSNodeStatus(uint16(rapid.Uint16().Draw(t, "id")), "*", names, 2, 46))}}
 	case "ssdp":
-		return []c10Step{{K: "pkt", Data: udp4(50000, 1900, ip4, [4]byte{239, 255, 255, 250}, gen.SSDPPayload(t))}}
+		return []c10Step{{K: "pkt", Data: udp4(50000, 1900, nameSrc, [4]byte{239, 255, 255, 250}, gen.SSDPPayload(t))}}
 	case "purge":
 		return []c10Step{{K: "purge", D: rapid.IntRange(0, 2).Draw(t, "d")}}
 	case "capture":
